@@ -968,7 +968,7 @@ fn main() {
     let mut rng = Rng::new(opts.seed ^ 0xC14);
 
     // (i) operation sequences
-    let n_ops = if thorough { 60_000 } else { 6_000 };
+    let n_ops = if thorough { 200_000 } else { 6_000 };
     for _ in 0..n_ops {
         let len = 4 + rng.below(if thorough { 60 } else { 36 });
         let case = gen_ops(&mut rng, len);
@@ -977,21 +977,21 @@ fn main() {
 
     // (ii-a) transfers through Concurrent: every boundary size × schedules, plus random sizes
     let sizes = boundary_payload_sizes();
-    let scheds = if thorough { 200 } else { 25 };
+    let scheds = if thorough { 400 } else { 25 };
     for &n in &sizes {
         for _ in 0..scheds {
             let case = gen_xfer(&mut rng, n);
             run(&case, false);
         }
     }
-    for _ in 0..(if thorough { 20_000 } else { 600 }) {
+    for _ in 0..(if thorough { 40_000 } else { 600 }) {
         let n = rng.below(4 * PIPE_SIZE + 3);
         let case = gen_xfer(&mut rng, n);
         run(&case, false);
     }
 
     // (ii-b) shell-level flows
-    let reps = if thorough { 40 } else { 10 };
+    let reps = if thorough { 100 } else { 10 };
     for &n in &sizes {
         for _ in 0..reps {
             let case = gen_sh(&mut rng, n);
@@ -1002,7 +1002,7 @@ fn main() {
         let case = gen_dbl(&mut rng);
         run(&case, false);
     }
-    for _ in 0..(if thorough { 6_000 } else { 400 }) {
+    for _ in 0..(if thorough { 15_000 } else { 400 }) {
         let n = rng.below(4 * PIPE_SIZE + 3);
         let case = gen_sh(&mut rng, n);
         run(&case, false);
